@@ -1,11 +1,15 @@
 /-
 C06  Audit is sound on valid documents and converges on damaged ones.
-Property theorems over the structural part of `Auditor.run` modelled in Model/Audit.lean on the
+Property theorems over the structural part of `Auditor.run` modelled in Model/Doc.lean (`audit`) on the
 document state machine (damaged states are ordinary states: dangling or wrong owners, unlinked
-entities, entities listed in several entity spaces, block references without definition).
+entities, entities listed in several entity spaces, block references without definition; Session 3: groups with
+dead / unlinked / block-owned members or members on several layouts, empty groups, paperspace block records
+without a layout).  Pipeline order as in the (fixed) `Auditor.run`: BlocksSection.audit, Layouts.audit,
+audit_all_database_entities + trashcan, GroupCollection.audit.
 -/
 import EzdxfVerif.Lemmas.Audit
 import EzdxfVerif.Lemmas.DocOwner
+import EzdxfVerif.Lemmas.DocLink
 
 namespace EzdxfVerif.Props.C06
 open EzdxfVerif.Doc
@@ -35,13 +39,31 @@ theorem audit_inv (s : State) (h : DocInv s) (hb : BInv s) : DocInv (audit s).1 
 /-- audit never resurrects or invents handles: the handle history is untouched -/
 theorem audit_handles (s : State) : hs (audit s).1 = hs s := Doc.audit_hs s
 
+/-- (Session 3) audit keeps "linked ⇒ listed": with `audit_inv` every invariant the C04 theorems need (exactly once,
+    group members resolve) holds for the audited document -/
+theorem audit_linkinv (s : State) (hl : LinkInv s) : LinkInv (audit s).1 := Doc.audit_LinkInv s hl
+
+/-- (Session 3) the parts of `audit_clean` that are new: after ONE run, from EVERY state, every group that is left is
+    non-empty, has only live members that lie on one model/paper space layout, no `*Paper_Space…` block record is
+    without a layout, and the active paperspace layout exists whenever a paperspace layout with a `*Paper_Space…` block
+    does (`Layouts._restore_active_layout`) - although `Layouts.audit` deletes blocks (which un-defines block references and orphans
+    entities) and the entity audit deletes group members, all within the same run -/
+theorem audit_groups_layouts_clean (s : State) :
+    (∀ g ∈ (audit s).1.groups, g.2.2.all (validMember (audit s).1) = true ∧
+      sameLayout (audit s).1 g.2.2 = true ∧ g.2.2.isEmpty = false) ∧ orphanBlocks (audit s).1 = [] ∧
+    needRestore (audit s).1 = false :=
+  ⟨(Doc.audit_clean s).2.2.1, (Doc.audit_clean s).2.2.2.1, (Doc.audit_clean s).2.2.2.2⟩
+
 /-! ### non-vacuity: the damaged document of the probe in DESIGN (dangling owner, wrong owner,
     undefined block, unlinked entity, entity listed twice) -/
 
 def fresh : State :=
-  ⟨[], [(23, []), (27, [])], [(lower modelSpaceName, modelSpaceName, 23), (lower paperSpaceName, paperSpaceName, 27)],
-   [⟨modelKey, ofString "Model", 23, 0⟩, ⟨upper (ofString "Layout1"), ofString "Layout1", 27, 1⟩],
-   [[48], ofString "defpoints"], 47⟩
+  { ents := [], spaces := [(23, []), (27, [])],
+    blocks := [(lower modelSpaceName, modelSpaceName, 23), (lower paperSpaceName, paperSpaceName, 27)],
+    layouts := [⟨modelKey, ofString "Model", 23, 0⟩, ⟨upper (ofString "Layout1"), ofString "Layout1", 27, 1⟩],
+    layers := [[48], ofString "defpoints"], next := 47,
+    tabs := [(1, ofString "byblock"), (1, ofString "bylayer"), (1, ofString "continuous"), (2, ofString "standard"),
+             (3, ofString "standard"), (4, ofString "acad")] }
 
 def damaged : State :=
   dmgAppend (dmgOwner (dmgOwner (run fresh [.add 23 47 48, .add 23 48 49, .ins 23 (ofString "NOPE") 49 50,
@@ -51,6 +73,25 @@ def damaged : State :=
 #guard (audit (audit damaged).1).2 == 0
 #guard ((audit damaged).1.spaces, (audit damaged).1.ents.map (fun e => (e.h, e.alive)))
   == ([(23, [49, 51]), (27, [])], [(47, false), (48, true), (49, false), (50, false), (51, true)])
+
+-- Session 3: a paperspace block record without layout that holds a LINE and is referenced by an INSERT, and a group
+-- with the INSERT and a LINE as members: Layouts.audit deletes the block (1 fix), the INSERT is now undefined and the
+-- LINE in the block lost its owner ... all repaired by ONE run, the second run finds nothing
+def damaged2 : State :=
+  run fresh [.newBlock (ofString "*Paper_Space7") 47 50, .add 47 50 51, .addL 23 (some (ofString "*PAPER_SPACE7")) 51 [] 53,
+    .add 23 53 54, .newGroup (ofString "G") 54 55, .setGroup (ofString "G") [51, 53]]
+
+#guard (audit damaged2).2 == 3
+#guard (audit (audit damaged2).1).2 == 0
+#guard ((audit damaged2).1.groups, (audit damaged2).1.blocks.length) == ([(ofString "G", 54, [53])], 2)
+#guard !decide (AuditClean damaged2)
+
+-- the active paperspace block was renamed: the audit renames it back (1 fix), the second run finds nothing
+def damaged3 : State := run fresh [.add 27 47 48, .renBlock paperSpaceName (ofString "*Paper_Space5")]
+#guard needRestore damaged3
+#guard (audit damaged3).2 == 1
+#guard activeBr (audit damaged3).1 == some 27
+#guard (audit (audit damaged3).1).2 == 0
 
 #guard decide (AuditClean (run fresh [.add 23 47 48, .add 27 48 49, .move 27 48 23]))
 #guard !decide (AuditClean damaged)
